@@ -79,6 +79,24 @@ pub fn gen_text(r: &mut Rng, u: &Universe) -> String {
         if i + 1 < n || r.chance(3, 4) {
             s.push_str(nl);
         }
+        // the same frame again, spelled differently (indentation, trailing blanks, +n / 0n line numbers)
+        if line.contains("at ") && line.ends_with(')') && r.chance(1, 4) && s.ends_with(nl) {
+            let t = line.trim();
+            let respelled = match r.below(4) {
+                0 => format!("\t{}", t),
+                1 => format!("  {}  ", t),
+                2 => match t.rsplit_once(':') {
+                    Some((a, b)) if b.len() > 1 && b.as_bytes()[0].is_ascii_digit() => format!("    {}:0{}", a, b),
+                    _ => format!(" {}", t),
+                },
+                _ => match t.rsplit_once(':') {
+                    Some((a, b)) if b.len() > 1 && b.as_bytes()[0].is_ascii_digit() => format!("    {}:+{}", a, b),
+                    _ => t.to_string(),
+                },
+            };
+            s.push_str(&respelled);
+            s.push_str(nl);
+        }
     }
     s
 }
